@@ -398,7 +398,7 @@ package fit
 //@@ assumed (reflection over the container structs, a map, sort.Slice: outside the supported subset): the message
 //@@ writers only append to the encoder's output
 //@ func (e *encoder) writeField(value reflect.Value, f *field) (err error)
-//@   props C05 C06
+//@   props C05 C06 C07
 //@   locals i byte, max byte
 //@   requires e.w != nil && (isLE(e.arch) || isBE(e.arch)) && f != nil && rvvalid(value) && byte(f.t)&0x1F <= 16
 //@   requires [array] farray(f.t) ==> fkind(f.t) == 0 && rvcls(value) == 5
@@ -424,7 +424,7 @@ package fit
 
 //@@ what the profile tables guarantee about the fields the encoder writes (the same facts C15 checks, as a lemma)
 //@ lemma enc_field_ok(m MesgNum)
-//@   props C05 C06 C15
+//@   props C05 C06 C07 C15
 //@   reveal tables, rvtables
 //@   concl forall n byte :: pfound(m, n) ==> knownMsgNums[m] && 0 <= pf(m, n).sindex && pf(m, n).sindex < rvNumField(int(m)) && byte(pf(m, n).t)&0x1F <= 16 &&
 //@  |   (farray(pf(m, n).t) ==> fkind(pf(m, n).t) == 0 && rvClass(int(m), pf(m, n).sindex) == 5) &&
@@ -442,7 +442,7 @@ package fit
 
 //@@ a data record: header byte = local message type, then every field of the definition, in its order, through writeField
 //@ func (e *encoder) writeMesg(mesg reflect.Value, def *encodeMesgDef) (err error)
-//@   props C05 C06
+//@   props C05 C06 C07
 //@   locals rangeindex int
 //@   use enc_field_ok(def.globalMesgNum)
 //@   requires e.w != nil && (isLE(e.arch) || isBE(e.arch)) && def != nil && enc_def_of(def) && rvismsg(mesg, int(def.globalMesgNum)) && def.globalMesgNum < 0xFF00
@@ -578,7 +578,7 @@ package fit
 //@ pred timeInRange(t time.Time) := 0 <= tns(t) && tns(t) < 1000000000 && tsec(t) >= 631065600 && tsec(t) < 631065600+(1<<32)
 
 //@ func (e *encoder) encodeValue(value interface{}, f *field) (err error)
-//@   props C05 C06
+//@   props C05 C06 C07
 //@   requires e.w != nil && (isLE(e.arch) || isBE(e.arch)) && f != nil
 //@   requires [kinds] (fkind(f.t) == 1 || fkind(f.t) == 2 ==> typeis[time.Time](value)) && (fkind(f.t) == 3 ==> typeis[Latitude](value)) && (fkind(f.t) == 4 ==> typeis[Longitude](value))
 //@   requires [strings] fkind(f.t) == 0 && fbase(f.t) == types.BaseString ==> f.length >= 1
